@@ -572,25 +572,66 @@ class RunSyncReal:
 # ------------------------------------------------------------------------------------------
 # C38: CrossThread (real threads, real asyncio loop with its self-pipe)
 
+class _WatchedSelector:
+    """Delegates to the loop's real selector and publishes whether the loop is currently blocked
+    in select() and with which timeout (read by the watchdog thread)."""
+
+    def __init__(self, inner):
+        self._inner = inner
+        self.in_select = False
+        self.timeout = 0
+        self.seq = 0
+
+    def select(self, timeout=None):
+        self.timeout = timeout
+        self.seq += 1
+        self.in_select = True
+        try:
+            return self._inner.select(timeout)
+        finally:
+            self.in_select = False
+
+    def __getattr__(self, name):
+        return getattr(self._inner, name)
+
+
+PRODUCER_KINDS = ["plain", "asyncio_coro", "asyncio_cb", "ioloop"]
+
+
 def cross_thread_run(args):
-    """nt threads (thread 1 = the loop thread, scheduling from inside its own callbacks) each
-    add_callback a numbered series while the loop runs.  Events get a global order from one
-    harness lock: begin(t, k) just before the add_callback call, run(t, k) inside the callback.
-    Seeded random sleeps perturb the OS schedule."""
+    """nt threads (thread 1 = the target loop's own thread, scheduling from inside its callbacks)
+    each add_callback a numbered series on ONE target IOLoop that has nothing else to do (no timers:
+    it blocks in select() without timeout whenever it is idle).  Producer threads are plain threads,
+    threads inside `asyncio.run` calling from a coroutine / from a call_soon callback of THEIR loop,
+    or threads running their own IOLoop.  Events get a global order from one harness lock:
+    begin(t, k) just before the add_callback call, added(t, k) when it has returned, run(t, k)
+    inside the callback.  Seeded random sleeps perturb the OS schedule.
+
+    Progress watchdog (logical, not timed): once every producer has finished, the loop being inside
+    one select(None) call with an empty self-pipe while callbacks are still unrun cannot end by
+    itself; the watchdog logs `stuck` and wakes the loop so that the run terminates.  On a correct
+    tree that condition never holds, however slow the machine is."""
     import random
+    import select as _select
     import threading
     import time as _time
     from tornado.platform.asyncio import AsyncIOLoop
-    tid, seed, nt, nk = args
+    tid, seed, nt, nk = args[:4]
+    kinds = args[4] if len(args) > 4 else None
     rng = random.Random(seed)
     loop = asyncio.new_event_loop()
+    sel = _WatchedSelector(loop._selector)
+    loop._selector = sel
     io = AsyncIOLoop(asyncio_loop=loop, make_current=False)
     lock = threading.Lock()
     ev = []
     nran = [0]
     total = nt * nk
-    delays = {t: [rng.choice([0, 0, 0.00005, 0.0002, 0.001]) for _ in range(nk)] for t in range(2, nt + 1)}
-    timed_out = [False]
+    if kinds is None:
+        kinds = [rng.choice(PRODUCER_KINDS) for _ in range(nt + 1)]
+    kinds = {t: kinds[t % len(kinds)] for t in range(2, nt + 1)}
+    delays = {t: [rng.choice([0, 0, 0.00005, 0.0002, 0.002]) for _ in range(nk)] for t in range(2, nt + 1)}
+    flags = {"gave_up": False, "stuck": 0}
 
     def log(a, t, k):
         with lock:
@@ -603,40 +644,95 @@ def cross_thread_run(args):
         if tag != (t, k):
             raise AssertionError("kwargs not passed through")
         if t == 1 and k < nk:
-            log("begin", 1, k + 1)
-            io.add_callback(cb, 1, k + 1, tag=(1, k + 1))
+            add(1, k + 1)
         if nran[0] >= total:
             io.stop()
 
+    def add(t, k):
+        log("begin", t, k)
+        io.add_callback(cb, t, k, tag=(t, k))
+        log("added", t, k)
+
     def worker(t):
-        for k in range(1, nk + 1):
-            d = delays[t][k - 1]
-            if d:
-                _time.sleep(d)
-            log("begin", t, k)
-            io.add_callback(cb, t, k, tag=(t, k))
+        kind = kinds[t]
+        if kind == "plain":
+            for k in range(1, nk + 1):
+                if delays[t][k - 1]:
+                    _time.sleep(delays[t][k - 1])
+                add(t, k)
+            return
+
+        async def main():
+            own = asyncio.get_running_loop()
+            for k in range(1, nk + 1):
+                await asyncio.sleep(delays[t][k - 1])
+                if kind == "asyncio_cb":
+                    done = own.create_future()
+
+                    def from_callback(k=k, done=done):
+                        add(t, k)
+                        done.set_result(None)
+                    own.call_soon(from_callback)
+                    await done
+                else:
+                    add(t, k)
+        if kind == "ioloop":
+            own = asyncio.new_event_loop()
+            io2 = AsyncIOLoop(asyncio_loop=own, make_current=False)
+            try:
+                io2.run_sync(main)
+            finally:
+                io2.close()
+        else:
+            asyncio.run(main())
 
     threads = [threading.Thread(target=worker, args=(t,), daemon=True) for t in range(2, nt + 1)]
+
+    def watchdog():
+        deadline = _time.monotonic() + 180
+        for th in threads:
+            th.join(max(0.0, deadline - _time.monotonic()))
+        while True:
+            with lock:
+                if nran[0] >= total:
+                    return
+            if _time.monotonic() > deadline:
+                flags["gave_up"] = True
+                loop.call_soon_threadsafe(loop.stop)
+                return
+            s0 = sel.seq
+            if (sel.in_select and sel.timeout is None and all(not th.is_alive() for th in threads)
+                    and not _select.select([loop._ssock], [], [], 0)[0]):
+                with lock:
+                    pending = nran[0] < total
+                if pending and sel.in_select and sel.seq == s0:
+                    # blocked for ever: nobody is left to add anything and no wake-up is on its way
+                    flags["stuck"] += 1
+                    with lock:
+                        ev.append({"a": "stuck", "args": [], "obs": {"nran": nran[0]}})
+                    loop.call_soon_threadsafe(lambda: None)
+                    _time.sleep(0.01)
+                    continue
+            _time.sleep(0.001)
+
+    wd = threading.Thread(target=watchdog, daemon=True)
 
     def kick():
         for th in threads:
             th.start()
-        log("begin", 1, 1)
-        io.add_callback(cb, 1, 1, tag=(1, 1))
-
-    def give_up():
-        timed_out[0] = True
-        io.stop()
+        wd.start()
+        add(1, 1)
     io.add_callback(kick)
-    h = io.call_later(60, give_up)      # safety net only; a lost callback shows as a missing run
     io.start()
-    io.remove_timeout(h)
+    wd.join(200)
     for th in threads:
         th.join(5)
     with lock:
         ev.append({"a": "end", "args": [], "obs": {"nran": nran[0]}})
+    loop._selector = sel._inner
     io.close()
-    return {"id": tid, "cfg": {"nt": nt, "nk": nk}, "ev": ev, "gave_up": timed_out[0]}
+    return {"id": tid, "cfg": {"nt": nt, "nk": nk}, "ev": ev, "gave_up": flags["gave_up"], "stuck": flags["stuck"],
+            "kinds": [kinds[t] for t in range(2, nt + 1)]}
 
 
 # ------------------------------------------------------------------------------------------
